@@ -152,36 +152,93 @@ def enc_inp(c):
     return out
 
 
+class _Timeout(Exception):
+    pass
+
+
+def _alarm(signum, frame):
+    raise _Timeout("implementation call exceeded its time limit (%d s)" % IMPL_TIMEOUT_S[0])
+
+
+# a normal call takes milliseconds; after the first time-out the limit drops so that a hanging
+# implementation cannot stall the check (every further hang is still recorded as a failure)
+IMPL_TIMEOUT_S = [60]
+
+
+def validate_return(c, ret, data, mv):
+    """The implementation must return (flags, mute): two 1-D ndarrays of ns entries, bool and floating,
+    mute finite, neither sharing memory with the caller's arrays.  Returns (flags, mute) or a message."""
+    ns = c.data.shape[1]
+    if not isinstance(ret, tuple) or len(ret) != 2:
+        return "saturation returned %s instead of a (flags, mute) pair" % (type(ret).__name__,)
+    fl, mu = ret
+    for name, a in (("flags", fl), ("mute", mu)):
+        if not isinstance(a, np.ndarray):
+            return "%s is a %s, not a numpy array" % (name, type(a).__name__)
+        if a.ndim != 1 or a.shape[0] != ns:
+            return "%s has shape %s for ns=%d" % (name, a.shape, ns)
+        if np.shares_memory(a, data) or (isinstance(mv, np.ndarray) and np.shares_memory(a, mv)):
+            return "%s shares memory with an argument of the caller" % name
+    if fl.dtype != np.bool_:
+        return "flags have dtype %s, not bool" % fl.dtype
+    if mu.dtype.kind != "f":
+        return "mute has dtype %s, not floating" % mu.dtype
+    if not bool(np.all(np.isfinite(mu))):
+        return "mute contains non-finite values"
+    return fl, np.asarray(mu, dtype=np.float64)
+
+
 def impl_observe(c):
-    """Run the real function; returns ("ok", flags, mute, side) or ("raise", exception).
+    """Run the real function.  Returns
+         ("ok", flags, mute, side)   well-formed return value (see validate_return)
+         ("raise", exception)        the call raised (any exception type, or timed out)
+         ("malformed", message)      it returned something that is not (bool[ns], float[ns])
     With c.calls > 1 the same max_voltage object is handed to consecutive calls (a batch loop re-using
     its range array) and the LAST call is the observation; side lists violated side conditions
     (the caller's range array / data must not be modified)."""
-    from ibldsp.voltage import saturation
+    import signal
     side = []
-    with warnings.catch_warnings():
-        warnings.simplefilter("ignore")
-        try:
-            mv = c.mv_arg()
-            keep = np.array(mv, copy=True) if isinstance(mv, np.ndarray) else None
-            for k in range(c.calls):
-                # C-contiguous copy, or the transposed view of an [ns, nc] array (what destripe passes)
-                data = c.data.copy() if (c.layout + k) % 2 == 0 else np.ascontiguousarray(c.data.T).T
-                fl, mu = saturation(data, mv, v_per_sec=c.vps, fs=c.fs, proportion=c.prop,
-                                    mute_window_samples=c.M)
-                if not np.array_equal(data, c.data):
-                    side.append(("caller_data_modified", "saturation modified the caller's data array"))
-            if keep is not None and not (keep.shape == mv.shape and np.array_equal(keep, mv)):
-                side.append(("caller_range_modified", "saturation modified the caller's max_voltage array "
-                             "(%r -> %r)" % (keep.ravel()[:3].tolist(), np.asarray(mv).ravel()[:3].tolist())))
-        except Exception as e:          # any exception is an observation (the oracle decides), not a harness crash
-            return ("raise", e)
-    return ("ok", np.asarray(fl), np.asarray(mu), side)
+    old = signal.signal(signal.SIGALRM, _alarm)
+    signal.alarm(IMPL_TIMEOUT_S[0])
+    try:
+        with warnings.catch_warnings():
+            warnings.simplefilter("ignore")
+            try:
+                from ibldsp.voltage import saturation
+                mv = c.mv_arg()
+                side += list(getattr(c, "reader_side", []))
+                keep = np.array(mv, copy=True) if isinstance(mv, np.ndarray) else None
+                for k in range(c.calls):
+                    # C-contiguous copy, or the transposed view of an [ns, nc] array (what destripe passes)
+                    data = c.data.copy() if (c.layout + k) % 2 == 0 else np.ascontiguousarray(c.data.T).T
+                    ret = saturation(data, mv, v_per_sec=c.vps, fs=c.fs, proportion=c.prop,
+                                     mute_window_samples=c.M)
+                    if not (data.shape == c.data.shape and np.array_equal(data, c.data)):
+                        side.append(("caller_data_modified", "saturation modified the caller's data array"))
+                if keep is not None and not (isinstance(mv, np.ndarray) and keep.shape == mv.shape
+                                             and np.array_equal(keep, mv)):
+                    side.append(("caller_range_modified", "saturation modified the caller's max_voltage array "
+                                 "(%r -> %r)" % (keep.ravel()[:3].tolist(), np.asarray(mv).ravel()[:3].tolist())))
+                val = validate_return(c, ret, data, mv)
+            except BaseException as e:    # any exception is an observation (the oracle decides), never a crash
+                if isinstance(e, KeyboardInterrupt):
+                    raise
+                if isinstance(e, _Timeout):
+                    IMPL_TIMEOUT_S[0] = 2
+                return ("raise", e)
+    finally:
+        signal.alarm(0)
+        signal.signal(signal.SIGALRM, old)
+    if isinstance(val, str):
+        return ("malformed", val, side)
+    return ("ok", val[0], val[1], side)
 
 
 def enc_out(c, obs):
     if obs[0] == "raise":
         return [0]
+    if obs[0] != "ok":
+        return [-777]
     _, _, s = window_fixed(c.M)
     fl, mu = obs[1], obs[2]
     return [1, len(fl)] + [int(bool(b)) for b in fl] + \
@@ -225,9 +282,9 @@ def oracle(c, obs):
     nc, ns = c.data.shape
     if obs[0] == "raise":
         return [("raises", "saturation raised %r on a well-formed input" % (obs[1],))]
+    if obs[0] == "malformed":
+        return [("malformed_return", obs[1])] + list(obs[2])
     fl, mu = obs[1], obs[2]
-    if fl.shape != (ns,) or mu.shape != (ns,) or fl.dtype != np.bool_:
-        return [("shape", "outputs have shapes %s %s dtype %s for ns=%d" % (fl.shape, mu.shape, fl.dtype, ns))]
     with warnings.catch_warnings():
         warnings.simplefilter("ignore")
         exp = expected_flags(c)
@@ -280,7 +337,7 @@ EVEN_REPAIRED = [False]     # decided once per run from all even-window cases, s
 
 def even_defect_exercised(c, obs):
     """even window and the defective formula leaves a non-zero gain on some flagged sample"""
-    if c.M % 2 == 1 or obs[0] != "ok" or obs[1].shape != obs[2].shape:
+    if c.M % 2 == 1 or obs[0] != "ok":
         return False
     fl = obs[1]
     ns = len(fl)
@@ -612,18 +669,29 @@ class ReaderCase(Case):
         try:
             f = d / FIXTURES[self.kind][1]
             f.write_bytes(self.text.encode("utf-8"))
+            self.reader_side = []
             sr = spikeglx.Reader(f)
-            self.fs = sr.fs
-            ncv = sr.nc - sr.nsync
-            rv = np.array(sr.range_volts)
+            self.fs = float(sr.fs)
+            ncv = int(sr.nc) - int(sr.nsync)
+            s2v0 = np.array(sr.sample2volts, copy=True)
+            first = sr.range_volts
+            if not isinstance(first, np.ndarray):
+                self.reader_side.append(("range_volts", "Reader.range_volts is a %s, not a numpy array"
+                                         % type(first).__name__))
+            rv = np.array(first, copy=True)
+            again = np.array(sr.range_volts, copy=True)
+            if not (rv.shape == again.shape and np.array_equal(rv, again)) or \
+                    not np.array_equal(s2v0, np.array(sr.sample2volts)):
+                self.reader_side.append(("range_volts", "Reader.range_volts changes between two reads / modifies "
+                                         "sample2volts (%r then %r)" % (rv.ravel()[:2].tolist(), again.ravel()[:2].tolist())))
             self.rv = rv[:ncv]
         finally:
             shutil.rmtree(d, ignore_errors=True)
-        self.mv_vals = [float(v) for v in self.rv]
+        self.mv_vals = [float(v) for v in np.asarray(self.rv, dtype=np.float64).ravel()]
         return self.rv
 
     def mv_dtype(self):
-        return self.rv.dtype.type if self.rv is not None else np.float32
+        return self.rv.dtype.type if (self.rv is not None and self.rv.dtype.kind == "f") else np.float32
 
     def mv_array(self):
         return np.array(self.rv)
@@ -672,6 +740,9 @@ def enc_inp_reader(c):
 def enc_out_reader(c, obs):
     if obs[0] == "raise":
         return [0]
+    if obs[0] != "ok" or c.rv is None or c.rv.ndim != 1 or c.rv.dtype.kind != "f" \
+            or not bool(np.all(np.isfinite(c.rv))):
+        return [-777]
     _, _, s = window_fixed(c.M)
     fl, mu = obs[1], obs[2]
     f32 = c.rv.dtype == np.float32
@@ -687,10 +758,16 @@ def oracle_reader(c, obs):
     >= v_per_sec * fs into j+1.  The generator keeps every value at least 0.5 % away from each
     boundary, far beyond float32 rounding (6e-8), so this exact rule must be met."""
     if obs[0] == "raise":
-        return [("raises", "saturation raised %r with Reader.range_volts" % (obs[1],))]
+        return [("raises", "Reader.range_volts / saturation raised %r" % (obs[1],))]
+    if obs[0] == "malformed":
+        return [("malformed_return", obs[1])] + list(obs[2])
     bad = []
     fl, mu = obs[1], obs[2]
     ncv, ns = c.data.shape
+    rv = c.rv
+    if not isinstance(rv, np.ndarray) or rv.ndim != 1 or rv.dtype.kind != "f" or not bool(np.all(np.isfinite(rv))):
+        return [("range_volts", "Reader.range_volts[:nc-nsync] is not a finite 1-D float array: %r"
+                 % (getattr(rv, "shape", None),))] + list(obs[3])
     if len(c.rv) != ncv or len(c.true_fs) != ncv:
         return [("range_volts", "range_volts[:nc-nsync] has %d entries for %d voltage channels" % (len(c.rv), ncv))]
     rel = [abs(Fraction(float(v)) / t - 1) for v, t in zip(c.rv, c.true_fs)]
@@ -885,10 +962,14 @@ def run(ctx):
             continue
         if c.mv_kind == "oddbroadcast":     # one data row against k ranges: model only
             continue
-        bad = oracle_reader(c, obs) if c.reader else oracle(c, obs) + metamorphic(c, obs)
+        try:
+            bad = oracle_reader(c, obs) if c.reader else oracle(c, obs) + metamorphic(c, obs)
+        except Exception as e:      # the oracle itself must never take the check down
+            bad = [("malformed_return", "the property oracle could not be evaluated on the implementation's "
+                    "output: %r" % (e,))]
         for clause, msg in bad:
             ctx.fail(msg, c.describe(), c.tags(clause))
-        if obs[0] == "ok" and ns > 0:
+        if obs[0] == "ok" and ns > 0 and not any(cl in ("range_volts", "malformed_return") for cl, _ in bad):
             fl = obs[1]
             dist["flag_at_first"] += bool(fl[0])
             dist["flag_at_last"] += bool(fl[-1])
@@ -938,8 +1019,8 @@ def replay(ctx, data):
         c = ReaderCase(inp["reader_kind"], inp["meta_text"], [Fraction(f) for f in inp["true_full_scale"]],
                        c.data, c.vps, c.prop, c.M, c.origin)
     obs = impl_observe(c)
-    if obs[0] == "raise":
-        print("implementation raised:", repr(obs[1]))
+    if obs[0] != "ok":
+        print("implementation %s:" % obs[0], repr(obs[1]))
     else:
         print("implementation flags:", obs[1].astype(int).tolist())
         print("implementation mute :", [float(v) for v in obs[2]])
